@@ -1023,6 +1023,21 @@ func init() {
 	E("runtime.NumGoroutine", func(fr *frame, args []value) value { return len(fr.i.path.sched.threads) })
 	E("runtime.Gosched", func(fr *frame, args []value) value { fr.i.path.sched.yield("gosched"); return nil })
 	E("runtime.GC", func(fr *frame, args []value) value { return nil })
+	// maps.Clone: the runtime's shallow map copy
+	E("maps.clone", func(fr *frame, args []value) value {
+		iv, ok := args[0].(iface)
+		if !ok {
+			panic(unsupported{"maps.clone of a non-interface argument"})
+		}
+		m, ok := iv.v.(*omap)
+		if !ok {
+			panic(unsupported{"maps.clone of a non-map"})
+		}
+		if m == nil {
+			return iv
+		}
+		return iface{iv.t, m.clone()}
+	})
 	E("runtime.Stack", func(fr *frame, args []value) value { return 0 })
 
 	// ---- request path (C16 route harness): requests built by the harnesses carry no
